@@ -35,7 +35,17 @@ def gen_case(rng):
     if len(hist) > 1:
         hist[0]["target"] = rng.choice(ids)
         hist[-1]["target"] = tasks[-1]["id"]
-    return {"tasks": gen.dump(tasks), "scripts": scripts, "history": hist}
+    outer_env = None
+    if rng.random() < 0.3:
+        # as if `cond run` were started from inside another Conductor task
+        outer_env = {"COND_OUT": "/outer/cond-out/x.task", "COND_DEPS": "/outer/a:/outer/b", "COND_NAME": "outer-task"}
+        if rng.random() < 0.5:
+            outer_env["COND_SLOT"] = "7"
+    blocker = None
+    rc = [t for t in tasks if t["kind"] == "run_command"]
+    if rc and rng.random() < 0.15:
+        blocker = {"task": rng.choice(rc)["id"], "kind": rng.choice(["file", "dangling-symlink"])}
+    return {"tasks": gen.dump(tasks), "scripts": scripts, "history": hist, "outer_env": outer_env, "blocker": blocker}
 
 
 def render(v):
@@ -58,18 +68,36 @@ def eval_case(case):
         pr = realrun.Project(sc.root, tasks, case["scripts"])
         tb = pr.tb
         rootreal = os.path.realpath(pr.root)
+        blocked = None
+        if case.get("blocker"):
+            # something that is not a directory sits where a run_command's output directory belongs
+            bp = pr.out_dir(case["blocker"]["task"])
+            os.makedirs(os.path.dirname(bp), exist_ok=True)
+            if case["blocker"]["kind"] == "file":
+                open(bp, "w").write("not a directory")
+            else:
+                os.symlink("/nonexistent/target", bp)
+            blocked = case["blocker"]["task"]
         for hi, inv in enumerate(case["history"]):
             exps = [t["id"] for t in tasks if t["kind"] == "run_experiment"]
             where_before = {x: pr.where(x) for x in exps}
             argv = ["run", inv["target"]] + (["-j", str(inv["jobs"])] if inv["jobs"] else []) + (["--again"] if inv["again"] else [])
             pr.events(new_only=True)
-            r = pr.cond(argv, run_id=hi, timeout=120)
+            r = pr.cond(argv, run_id=hi, timeout=120, env_extra=case.get("outer_env"))
             evs = pr.events(new_only=True)
             W = {"engine": "E1", "case": case, "invocation": hi, "argv": argv, "result": cli.brief(r), "events": evs[:60], "where_before": where_before}
+            if case.get("outer_env"):
+                bump("c07_runs_with_inherited_COND_vars")
+            if blocked:
+                bump("c07_blocked_output_path_runs")
+                bs = [e for e in evs if e["kind"] == "start" and e["task"] == blocked]
+                if bs and not bs[0].get("out_isdir"):
+                    out["violations"].append({"key": "C07:task-started-without-output-directory", "msg": "%s was started although its output path is not a directory (COND_OUT=%s)" % (blocked, bs[0]["env"].get("COND_OUT")), "witness": W})
+                    break
             if r["timed_out"]:
                 out["inconclusive"].append({"why": "cond run timed out (watchdog)", "detail": cli.brief(r)})
                 break
-            if r.code != 0:
+            if r.code != 0 and not blocked:
                 out["inconclusive"].append({"why": "cond run failed in a workload where every task succeeds", "detail": cli.brief(r)})
                 break
             starts = {}
